@@ -329,7 +329,9 @@ func (s *state) walk(node parse.Node) error {
 		if err != nil {
 			return err
 		}
-		si.blocks = append(s.blocks, node.Blocks, tree.Blocks())
+		// The embedded template sees the blocks overridden in the embed body and
+		// its own, not the blocks of the template that embeds it.
+		si.blocks = []map[string]*parse.BlockNode{node.Blocks, tree.Blocks()}
 		err = si.walk(tree.Root())
 		if err != nil {
 			return err
